@@ -38,17 +38,17 @@ except Exception:                                                          # pra
         return True
 
 def usable(c):
-    """configurations C03/C09 build.  Excluded, because they are C01/C02's findings and would only repeat them here:
-    EC_PF_TWIN_MULT_ALGO_JOINT (bn_calc_jsf reads an uninitialised local for a zero scalar) and a table-based
-    unknown-point multiplier whose window exceeds the fixed-point window (the table is sized by the latter)."""
+    """configurations C03/C09 build.  Excluded, because it is C02's finding and would only repeat it here: a table-based
+    unknown-point multiplier whose window exceeds the fixed-point window (the table is sized by the latter).
+    (EC_PF_TWIN_MULT_ALGO_JOINT is built since bn_calc_jsf's zero-scalar defect was fixed upstream.)"""
     if not cfg_valid(c): return False
-    if c["twin"] == 2: return False
     unk, unkw = (c["fxp"], c["fxpw"]) if c["unk"] == 5 else (c["unk"], c["unkw"])
     if unk in (2, 3, 4) and unkw > c["fxpw"]: return False
     if c["digit"] == 128: return False
     return True
 
 POOL = [   # hand-picked spread over coordinate systems, multipliers and digit widths (all satisfy usable())
+    dict(digit=64, mulldiv=1, proj=0, mix=0, rdbl=0, fxp=4, fxpw=8, unk=3, unkw=2, twin=2),     # the header's own defaults (affine, JOINT twin multiplication)
     dict(digit=32, mulldiv=0, proj=0, mix=0, rdbl=0, fxp=0, fxpw=4, unk=0, unkw=2, twin=0),     # plain affine, binary everything
     dict(digit=8,  mulldiv=1, proj=1, mix=0, rdbl=0, fxp=3, fxpw=4, unk=3, unkw=2, twin=1),     # 8-bit digits: the comb code really runs on the 8-bit curves
     dict(digit=16, mulldiv=0, proj=1, mix=1, rdbl=0, fxp=2, fxpw=4, unk=5, unkw=2, twin=1),     # sliding window, unknown point = same as fixed
@@ -86,8 +86,40 @@ def choose_builds(ctx, n_extra, want):
     cfgs = [dict(SUITE)] + pool[:n_extra]
     return [Build(c, *want(i, c)) for i, c in enumerate(cfgs)]
 
-def run_lines(b, lines, timeout=900):
-    return common.batch_run(b.exe, lines, timeout=timeout)
+CRASH_CAP = 60
+SKIPPED = "skipped-after-crash-cap"
+def run_lines(b, lines, timeout=900, cap=CRASH_CAP):
+    """common.batch_run with a cap on dead driver processes: a tree in which every call dies must end in a verdict (the
+    crashes already recorded), not in an infrastructure failure.  Lines behind the cap get a result whose kind is SKIPPED
+    (Fails.add ignores those)."""
+    res = [None] * len(lines)
+    i = 0; crashes = 0
+    e = {"ASAN_OPTIONS": "detect_leaks=0:abort_on_error=0:detect_stack_use_after_return=1:allocator_may_return_null=1",
+         "UBSAN_OPTIONS": "print_stacktrace=1:halt_on_error=1"}
+    while i < len(lines):
+        if crashes >= cap:
+            for j in range(i, len(lines)): res[j] = {"crash": (SKIPPED, "", "", ""), "raw": ""}
+            break
+        data = ("\n".join(lines[i:]) + "\n").encode()
+        rc, out = common.sh([b.exe], stdin=data, timeout=timeout, env=e)
+        answers = []
+        for ln in out.split("\n"):
+            if ln.startswith("==") or "runtime error:" in ln or ln.startswith("FAULT") or ln.startswith("[rig] TIMEOUT"): break
+            if ln.strip() == "": continue
+            answers.append(ln)
+        k = 0
+        for a in answers:
+            if i + k >= len(lines): break
+            res[i + k] = a; k += 1
+        if rc == 0 and i + k >= len(lines): break
+        if i + k >= len(lines):
+            raise common.Infra("driver exited rc=%s after answering everything:\n%s" % (rc, out[-2000:]))
+        if any(a.startswith("FATAL") for a in answers):
+            raise common.Infra("driver refused a case (rig bug): %s\n%s" % ([a for a in answers if a.startswith("FATAL")][:1], lines[i + k - 1][:300]))
+        key = common.san_key(out) or (("timeout", "", "", "driver timeout") if rc == 124 else ("exit-%s" % rc, "", "", out[-300:]))
+        res[i + k] = {"crash": key, "raw": out[-2500:]}
+        i = i + k + 1; crashes += 1
+    return res
 
 # ------------------------------------------------------------------ TLC partitions
 def write_cfg(name, consts, invariants):
